@@ -17,7 +17,8 @@ RULE = (
     "duplicate / comma-list / ignored gene names, with or without depth column), a method, skip_low, "
     "skip_outliers, min_weight, haar threshold, PAR genome, processes in 1..16 and a SimPool schedule "
     "(+ pool faults in the fault population); a quarter of the min_weight=0 runs also go through "
-    "cnvkit.py segment on a written .cnr. Non-trivial = at least one bin was filtered or a centromere split was taken, AND "
+    "cnvkit.py segment on a written .cnr; half of the multi-chromosome per-arm runs segment one chromosome "
+    "alone in a pristine process; a quarter segment a second sample over the same bins. Non-trivial = at least one bin was filtered or a centromere split was taken, AND "
     "(the per-arm pool ran >1 task, or the method is an hmm variant, or a fault fired). Distinct = "
     "distinct (method, filter config, processes class, table digest, pool interleaving hashes, fault "
     "kinds fired) tuples, counted with a set."
@@ -301,6 +302,29 @@ def _close(a, b):
     return a == b or abs(a - b) <= 1e-9 * max(1.0, abs(a), abs(b))
 
 
+def _as_float_frame(df):
+    """Numeric columns as float (an all-integer `probes` column is int in one table and float in
+    another that was concatenated with an empty arm: not a matter of the property)."""
+    import pandas as pd
+    df = df.reset_index(drop=True).copy()
+    for c in df.columns:
+        if pd.api.types.is_numeric_dtype(df[c].dtype) and not pd.api.types.is_bool_dtype(df[c].dtype):
+            df[c] = df[c].astype(float)
+    return df
+
+
+def _ref_segment(req):
+    """Runs in a pristine grandchild of the reference server (forked before this run segmented
+    anything): one chromosome segmented on its own, serially."""
+    from sim import digest as D
+
+    snap, method, kw = req
+    _state["obs_dir"] = None  # observations of this side computation must not reach the run
+    cn = pickle.loads(snap)
+    out = _state["seg"].do_segmentation(cn, method, processes=1, **kw)
+    return D.canon(_as_float_frame(out.data))
+
+
 # -- one simulated run --------------------------------------------------------
 
 def run_one(tape, tier, opts):
@@ -314,6 +338,8 @@ def run_one(tape, tier, opts):
         warm()
     seg = _state["seg"]
     ctx = C.install(C.SimContext(tape, "C03"))
+    from sim import refserver
+    ref = refserver.RefServer(_ref_segment)  # forked before anything is segmented in this run
     population = "fault" if tape.chance(3, 10, "population") else "faultfree"
     if opts.get("population"):
         population = opts["population"]
@@ -322,7 +348,8 @@ def run_one(tape, tier, opts):
     if opts.get("method"):
         method = opts["method"]
     skip_low = tape.chance(1, 2, "seg.skip_low")
-    skip_outliers = tape.choice([10, 0, 3], "seg.skip_outliers")
+    # the default factor 10 hardly ever flags a bin; 3 and 2 do
+    skip_outliers = tape.weighted([(10, 2), (0, 2), (3, 3), (2, 1)], "seg.skip_outliers")
     min_weight = tape.choice([0, 0.4], "seg.min_weight")
     processes = tape.weighted(
         [(2, 3), (3, 2), (16, 2), (tape.between(4, 15, "seg.p_mid"), 2), (1, 1)], "seg.processes")
@@ -462,6 +489,26 @@ def run_one(tape, tier, opts):
                 ctx.probe("filters.method_independent_checked")
         serial_c = D.canon(out)
         digests.append(D.digest(serial_c))
+        # T6 (chromosome alone): the per-arm methods treat every chromosome on its own, so one
+        # chromosome segmented alone in a pristine process must give exactly its rows of the
+        # whole-table result -- whatever was segmented before it in this process
+        if not is_hmm and len(table["plan"]["chroms"]) > 1 and tape.chance(1, 2, "seg.chrom_alone"):
+            names_ = [c["chrom"] for c in table["plan"]["chroms"]]
+            cname = names_[tape.draw(len(names_), "seg.chrom_alone_which")]
+            sub = cnarr[cnarr.chromosome == cname]
+            got = _as_float_frame(out.data[out.data["chromosome"].astype(str) == cname])
+            try:
+                want = ref.eval((pickle.dumps(sub), method, kw))
+            except Exception as exc:  # noqa: BLE001 (the side computation failed: no verdict)
+                ctx.note(f"chromosome-alone reference failed: {type(exc).__name__}")
+                want = None
+            if want is not None and (len(got) or (isinstance(want, tuple) and len(want) > 1 and want[1])):
+                d = D.diff(D.canon(got), want)
+                if d:
+                    raise Violation("T6", f"C03/T6/{method}/chromosome_alone",
+                                    f"{method}: chromosome {cname} segmented alone in a pristine process gives "
+                                    f"other segments than the same chromosome inside the whole table: {d}")
+                ctx.probe("chromosome_alone.checked")
         if use_pool and pooled is None:
             pooled = pool_call()
 
@@ -570,6 +617,7 @@ def run_one(tape, tier, opts):
     except Violation as v:
         res.update(status="violation", clause=v.clause, key=v.key, message=v.message)
     finally:
+        ref.close()
         ctx.close()
         _state["obs_dir"] = None
         tempfile.tempdir = None
